@@ -251,6 +251,18 @@ def strided_family():
                         "factors": [f, w], "constraints": cons,
                         "blocks": [{"id": 0, "kind": "CrossBlock", "design": [0, 1], "crossing": [0],
                                     "constraints": [0, 1], "rcc": True}], "main": 0}))
+    # three complex-window factors in act_design: the third one's variables start after the SUM of the
+    # first two blocks of variables (seed C14-complex-offset-overwritten; two such factors cannot tell
+    # an accumulated offset from an overwritten one)
+    for widths in ((2, 3, 4), (3, 2, 2), (2, 2, 3)):
+        for m in (5, 6, 7):
+            ws = [_window_factor(i + 1, "w%d" % i, f, wd, 1, None) for i, wd in enumerate(widths)]
+            cons = [{"id": i, "kind": "AtMostKInARow", "k": 3, "level": [i + 1, "hit"]} for i in range(3)]
+            cons.append({"id": 3, "kind": "MinimumTrials", "trials": m})
+            out.append(("three-complex", {
+                "factors": [f] + ws, "constraints": cons,
+                "blocks": [{"id": 0, "kind": "CrossBlock", "design": [0, 1, 2, 3], "crossing": [0],
+                            "constraints": [0, 1, 2, 3], "rcc": True}], "main": 0}))
     return out
 
 
